@@ -15,51 +15,54 @@
    [pinv_contract solve] (Proofs/TomoProcP.v): for every N x N system T x = b that is
    solved by some x0 and whose matrix has a trivial kernel, [solve N T b] is x0.
 
-   WHAT IS PROVED, for one qubit (n = 1) unless a theorem says "every n":
-     - LI on noiseless data returns choi_from_unitary(V) for EVERY V with V^+V = 1;
-     - gate fidelity is (|tr(U^+ V)|^2 + d)/(d(d+1)) for EVERY target matrix U, one for U = V;
-     - the MLE forward model _p_vec at choi_from_unitary(V) gives the Born probabilities of
-       the data, it is linear in the Choi matrix (every n), the matrix _gradient returns
-       satisfies tr(G D) = d/dt cost(choi + t D) for every direction D (every n), the rows
-       of _a_mat are Hermitian and, for real weights, G is the Hilbert-Schmidt gradient
-       (every n); _tp_proj makes the partial trace the identity (every n);
+   WHAT IS PROVED:
+     - every number of qubits n >= 1: LI on noiseless data returns choi_from_unitary(V) for
+       EVERY 2^n x 2^n matrix V with V^+V = 1 (complex, non-symmetric, entangling, ...);
+     - one qubit: gate fidelity is (|tr(U^+ V)|^2 + d)/(d(d+1)) for EVERY target matrix U, one
+       for U = V;
+     - every n: the MLE forward model _p_vec at choi_from_unitary(V) gives the Born
+       probabilities of the data (EVERY matrix V), it is linear in the Choi matrix, the matrix
+       _gradient returns satisfies tr(G D) = d/dt cost(choi + t D) for every direction D, the
+       rows of _a_mat are Hermitian and, for real weights, G is the Hilbert-Schmidt gradient;
+       _tp_proj makes the partial trace the identity;
      - regression theorems about the definitions of the pinned tree ([*_pinned], findings
        F9 and F8, repaired in /repo by 00f76fe and daa21e7).
    OUTSIDE PROOF (oracle-tested by harness/c16.py on generated unitaries only):
      convergence of the projected-gradient iteration pgdb / _cptp_proj, positivity after
      the eigh clipping of _cp_proj, the ">= 0.99 fidelity" of the MLE estimate,
-     process_fidelity (scipy sqrtm), two-qubit LI / gate fidelity / forward model (model and
-     code are compared on every run, n = 2 included), and the photonic level (dual-rail
+     process_fidelity (scipy sqrtm), two-qubit gate fidelity (model and code are compared on
+     every run, n = 2 included), and the photonic level (dual-rail
      frequencies of the circuits = Born probabilities of V rho V^+). *)
 From Coq Require Import ZArith List Bool Arith Lia Permutation Reals QArith Qcanon.
 From LW Require Import Base.Sx Base.Num Base.Sums Base.Mat Base.QI2 Base.QI2R Model.Tomo
-  Proofs.TomoStateP Proofs.TomoProcP Proofs.TomoProcG Proofs.TomoProcW.
+  Proofs.TomoStateP Proofs.TomoProcP Proofs.TomoProcG Proofs.TomoProcN Proofs.TomoProcW.
 Import ListNotations.
 Open Scope nat_scope.
 
 (* ------------------------------------------------------------------ linear inversion *)
-(* LIProcessTomography.process on the noiseless data of a one-qubit process V returns
-   exactly the matrix choi_from_unitary(V) = vec(V) vec(V)^+ : for EVERY V with V^+ V = 1
-   (complex, non-symmetric, ...), every ordering of the settings. *)
+(* LIProcessTomography.process on the noiseless data of an n-qubit process V returns
+   exactly the matrix choi_from_unitary(V) = vec(V) vec(V)^+ : for EVERY n >= 1, EVERY
+   2^n x 2^n matrix V with V^+ V = 1 (complex, non-symmetric, ...), every ordering of the
+   settings. *)
 Theorem C16_li_returns_choi_from_unitary :
   forall (K : Type) (o : ops K) (ii hh : K), TomoRing o ii hh ->
-  forall (solve : nat -> (nat -> nat -> K) -> (nat -> K) -> nat -> K) (V : nat -> nat -> K) (req : list mstr),
-    pinv_contract (o:=o) solve -> lunit o 2 V -> Permutation req (req_canonical 1 false) ->
-    exists J, li_process o ii solve 1 req (process_ideal o ii hh 1 V (istrings li_inputs 1) req) = Ok J /\
-              meq 4 J (choi_from_unitary o 2 V).
-Proof. exact (fun K o ii hh TR => li_returns_choi_from_unitary (TR:=TR)). Qed.
+  forall (n : nat) (solve : nat -> (nat -> nat -> K) -> (nat -> K) -> nat -> K) (V : nat -> nat -> K) (req : list mstr),
+    1 <= n -> pinv_contract (o:=o) solve -> lunit o (2 ^ n) V -> Permutation req (req_canonical n false) ->
+    exists J, li_process o ii solve n req (process_ideal o ii hh n V (istrings li_inputs n) req) = Ok J /\
+              meq (2 ^ n * 2 ^ n) J (choi_from_unitary o (2 ^ n) V).
+Proof. exact (fun K o ii hh TR => li_returns_choi_from_unitary_n (TR:=TR)). Qed.
 Print Assumptions C16_li_returns_choi_from_unitary.
 
 (* the same over the complex numbers (pairs of Coq reals) *)
 Theorem C16_li_returns_choi_from_unitary_complex :
-  forall (solve : nat -> (nat -> nat -> R * R) -> (nat -> R * R) -> nat -> R * R) (V : nat -> nat -> R * R) (req : list mstr),
-    pinv_contract (o:=tCops) solve -> lunit tCops 2 V -> Permutation req (req_canonical 1 false) ->
-    exists J, li_process tCops tC_i solve 1 req (process_ideal tCops tC_i tC_h 1 V (istrings li_inputs 1) req) = Ok J /\
-              meq 4 J (choi_from_unitary tCops 2 V).
-Proof. exact (li_returns_choi_from_unitary (TR:=tC_tomo)). Qed.
+  forall (n : nat) (solve : nat -> (nat -> nat -> R * R) -> (nat -> R * R) -> nat -> R * R) (V : nat -> nat -> R * R) (req : list mstr),
+    1 <= n -> pinv_contract (o:=tCops) solve -> lunit tCops (2 ^ n) V -> Permutation req (req_canonical n false) ->
+    exists J, li_process tCops tC_i solve n req (process_ideal tCops tC_i tC_h n V (istrings li_inputs n) req) = Ok J /\
+              meq (2 ^ n * 2 ^ n) J (choi_from_unitary tCops (2 ^ n) V).
+Proof. exact (li_returns_choi_from_unitary_n (TR:=tC_tomo)). Qed.
 Print Assumptions C16_li_returns_choi_from_unitary_complex.
 
-(* Regression (finding F9): with the row order of the pinned tree,
+(* Regression (finding F9), one qubit: with the row order of the pinned tree,
    vec(conj(rho_in) (x) P) instead of vec(P (x) conj(rho_in)), LI returned the Choi
    matrix of the TRANSPOSE of V ... *)
 Theorem C16_li_pinned_returns_choi_of_transpose :
@@ -119,17 +122,20 @@ Proof. exact (fun K o ii hh TR => gate_fidelity_same (TR:=TR)). Qed.
 Print Assumptions C16_gate_fidelity_same.
 
 (* ------------------------------------------------------------- maximum likelihood *)
-(* _p_vec (before clipping) at the reference choi_from_unitary(V) itself: entry
-   2(3i+j)+s is (tr rho' + (-1)^s <P_j>_rho') / 2 / 4 with rho' = V rho_i V^+, i.e. the
-   Born probability of outcome s of observable j on input i (weight 1/4) - for EVERY
-   matrix V.  So the likelihood of noiseless data is maximal at the reference. *)
+(* _p_vec (before clipping) at the reference choi_from_unitary(V) itself, every n: the
+   entries, in the order of the rows of _a_mat (input string, measurement string without
+   the all-I one, outcome s), are
+     born_pm_n n V in_s meas s = (tr rho' + (-1)^s <P_meas>_rho') / 2 / 4^n,  rho' = V rho_in V^+
+   i.e. the Born probability of outcome s of observable meas on input in_s (weight 1/4^n) -
+   for EVERY matrix V.  So the likelihood of noiseless data is maximal at the reference. *)
 Theorem C16_mle_forward_model :
   forall (K : Type) (o : ops K) (ii hh : K), TomoRing o ii hh ->
-  forall V : nat -> nat -> K,
-    p_lin o ii 1 (choi_from_unitary o 2 V)
-    = flat_map (fun l => flat_map (fun m => [born_pm (o:=o) (ii:=ii) (hh:=hh) V l m false;
-                                             born_pm (o:=o) (ii:=ii) (hh:=hh) V l m true]) [PX; PY; PZ]) mle_inputs.
-Proof. exact (fun K o ii hh TR => mle_forward_model (TR:=TR)). Qed.
+  forall (n : nat) (V : nat -> nat -> K),
+    p_lin o ii n (choi_from_unitary o (2 ^ n) V)
+    = flat_map (fun in_s => flat_map (fun meas => [born_pm_n (o:=o) (ii:=ii) n V in_s meas false;
+                                                   born_pm_n (o:=o) (ii:=ii) n V in_s meas true])
+                                     (mle_meas_basis n)) (mle_input_basis n).
+Proof. exact (fun K o ii hh TR => mle_forward_model_n (TR:=TR)). Qed.
 Print Assumptions C16_mle_forward_model.
 
 (* the forward model is linear in the Choi matrix, every n: p(A + t B) = p(A) + t p(B) *)
